@@ -1,19 +1,30 @@
 --------------------------------- MODULE T_Mem ---------------------------------
 (* Trace specification for C04: stores ("st", "cst"), loads ("ld", "cld"), gather / *)
 (* scatter ("ga") and lane-numbering events ("ln") recorded in the guarded arena.     *)
-EXTENDS Mem, Json, IOUtils
+EXTENDS Mem, LaneFloat, Json, IOUtils
 VARIABLE l
 Log == ndJsonDeserialize(IOEnv.TRACE)
-NB(t) == CASE t \in {"i8", "u8"} -> 1 [] t \in {"i16", "u16"} -> 2 [] t \in {"i32", "u32", "f32"} -> 4 [] OTHER -> 8
+NBT(t) == CASE t \in {"i8", "u8"} -> 1 [] t \in {"i16", "u16"} -> 2 [] t \in {"i32", "u32", "f32"} -> 4 [] OTHER -> 8
 Changed(r) == LET n == r[1] + 256 * r[2]  cap == (Len(r) - 2) \div 3  m == IF n < 600 THEN n ELSE 600        \* never index past the recorded row
               IN {<<r[3 * k] + 256 * r[3 * k + 1], r[3 * k + 2]>> : k \in 1 .. (IF m < cap THEN m ELSE cap)}
 AlignOf(arch, w) == IF arch = "emulated" THEN 1 ELSE w
 IsAligned(op) == op \in {"store_aligned", "xstore_aligned", "store_tag_a", "store_as_a", "load_aligned", "xload_aligned", "load_tag_a", "load_as_a",
                          "batch_load_tag_a", "bool_store_aligned", "bool_load_aligned"}
 Reg(e) == SubSeq(e.a, 1, e.w)
-IdxOf(b, t, i) == LET nb == NB(t) IN b[i * nb + 1] + (IF nb > 1 THEN 256 * b[i * nb + 2] ELSE 0)      \* indices are < 64: low bytes suffice
+KindOf(t) == IF t \in {"f32", "f64"} THEN "float" ELSE "int"
+SignedT(t) == t \in {"i8", "i16", "i32", "i64"}
+\* C04 is about WHICH element is accessed; the value conversion of the converting forms is documented as static_cast but is not one of the
+\* conversions C06 lists, and the avx2/avx512f hand-made double -> int32 gathers round to nearest where the generic kernel truncates
+\* (DESIGN 0.3).  A floating -> integer element may therefore arrive truncated OR rounded to nearest even; every other conversion is exact.
+CvtLane(tf, x, tt, r) ==
+  IF KindOf(tf) = "float" /\ KindOf(tt) = "int"
+  THEN LET f == FmtOfBytes(Len(x)) IN
+       ~(TruncFits(f, x, SignedT(tt), NBT(tt)) /\ NearFits(f, x, SignedT(tt), NBT(tt)))
+       \/ r = FloatToIntTrunc(f, x, SignedT(tt), NBT(tt)) \/ r = FloatToIntNear(f, x, SignedT(tt), NBT(tt))
+  ELSE CvtRel(KindOf(tf), SignedT(tf), x, KindOf(tt), SignedT(tt), NBT(tt), r)
+IdxOf(b, t, i) == LET nb == NBT(t) IN b[i * nb + 1] + (IF nb > 1 THEN 256 * b[i * nb + 2] ELSE 0)      \* indices are < 64: low bytes suffice
 OK(e) ==
-  LET nb == NB(e.t)  n == e.w \div nb  p == e.imm IN
+  LET nb == NBT(e.t)  n == e.w \div nb  p == e.imm IN
   CASE e.k = "st" /\ e.op \in {"bool_store_unaligned", "bool_store_aligned"} ->
          StoreObservedOK(p, [i \in 1 .. n |-> IF e.a[i] # 0 THEN 1 ELSE 0], Changed(e.r)) /\ e.r[1] + 256 * e.r[2] <= n
     [] e.k = "st" -> StoreObservedOK(p, Reg(e), Changed(e.r)) /\ e.r[1] + 256 * e.r[2] <= e.w
@@ -30,6 +41,21 @@ OK(e) ==
          \* distinct indices: table element idx[i] receives lane i; nothing else changes
          LET bs == [j \in 1 .. e.w |-> LET el == (j - 1) \div nb  i == CHOOSE q \in 0 .. n - 1 : IdxOf(e.b, e.t, q) = el IN e.a[i * nb + ((j - 1) % nb) + 1]]
          IN StoreObservedOK(p, bs, Changed(e.r)) /\ e.r[1] + 256 * e.r[2] <= e.w
+    \* converting forms: the table holds n elements of type e.u (rows a and c); each accessed element is converted as C06 prescribes
+    [] e.k = "ga" /\ e.op = "gather_cv" ->
+         LET nu == NBT(e.u)  tb == SubSeq(e.a \o e.c, 1, n * nu) IN
+         /\ InPage(p, n * nu)
+         /\ \A i \in 0 .. n - 1 : LET el == IdxOf(e.b, e.t, i) IN
+                                   CvtLane(e.u, SubSeq(tb, el * nu + 1, (el + 1) * nu), e.t, SubSeq(e.r, i * nb + 1, (i + 1) * nb))
+    [] e.k = "ga" /\ e.op = "scatter_cv" ->
+         LET nu == NBT(e.u)  ch == Changed(e.r) IN
+         /\ InPage(p, n * nu) /\ e.r[1] + 256 * e.r[2] <= n * nu
+         /\ \A c \in ch : c[1] \in Range(p, n * nu)
+         /\ \A i \in 0 .. n - 1 :          \* distinct indices: table element idx[i] holds lane i converted to e.u (bytes equal to the canary are not reported)
+              LET el == IdxOf(e.b, e.t, i)
+                  got == [j \in 1 .. nu |-> LET ad == p + el * nu + j - 1 IN
+                                              IF \E c \in ch : c[1] = ad THEN (CHOOSE c \in ch : c[1] = ad)[2] ELSE Canary(ad)]
+              IN CvtLane(e.t, SubSeq(e.a, i * nb + 1, (i + 1) * nb), e.u, Seq1(got, nu))
     [] e.k = "ln" /\ e.op \in {"broadcast", "ctor_bcast"} -> \A i \in 0 .. n - 1 : SubSeq(e.r, i * nb + 1, (i + 1) * nb) = SubSeq(e.a, 1, nb)
     [] e.k = "ln" /\ e.op = "get" -> SubSeq(e.r, 1, e.w) = Reg(e)
     [] OTHER -> FALSE
